@@ -152,6 +152,17 @@ def check_case(c):
         return Violation("returned-without-awaited-packet", "%r: returned %r although the device stalled before packet #%d" % (c, res["ok"], c["k"])), info
     if res["exc"] not in ("AdbTimeoutError", "TcpTimeoutException"):
         return Violation("wrong-exception-type", "%r: expected AdbTimeoutError or the transport's timeout error, got %s: %s" % (c, res["exc"], res["msg"])), info
+    if c["kind"] == "trickle" and (total is None or opname not in HAS_TOTAL):
+        # the reverse direction: bytes that trickle FAST ENOUGH must not time out.  Every block of these workloads is <= 40 bytes, each byte arrives
+        # within the transport timeout, so a block completes well inside read_timeout_s when 40*delta is (comfortably) below it.
+        d_eff = c.get("delta", 0.05)
+        t_read = AUTH_T if (opname == "connect-pub" and c["k"] >= 2) else Teff
+        if t_read is not None:
+            d_eff = min(d_eff, max(t_read, 0))
+        d_eff = max(d_eff, 1e-3)
+        if t_read is not None and t_read > 0 and d_eff <= t_read and 60 * d_eff < max(Rp, 0) * 0.5:
+            return Violation("spurious-timeout-under-trickle", "%r: every byte arrived within the transport timeout (1 byte per %.3f s) and no block needs more than %.3f s, far below read_timeout_s=%r, yet the call raised %s: %s"
+                             % (c, d_eff, 60 * d_eff, Rp, res["exc"], res["msg"])), info
     t_end = out.t_ops[idx][1]
     elapsed = t_end - core.stall_t
     A = AUTH_T if opname in ("connect-pub",) else 0
